@@ -137,7 +137,10 @@ def eval_pair(task: tuple) -> dict:
 
     from .c03 import comma_pattern_in_union
 
+    from .c14_refkids import required_only
+
     doc_cause = "comma_in_pattern_in_union" if comma_pattern_in_union(doc) else "none"
+    req_only = required_only(doc)  # inherited members re-declared only through `required` (kind of their type)
     req_nullable = required_nullable_names(doc)
     arr_def = any(isinstance(v, dict) and v.get("type") == "array" for v in (doc.get("definitions") or {}).values())
     insts = semgen.valid_instances(doc)
@@ -182,7 +185,7 @@ def eval_pair(task: tuple) -> dict:
         for name, gopts, hopts in variants:
             out["evals"] += 1
             hit(f"option:{name}")
-            cls0 = {"option": name, "style": style, "cause": doc_cause, "array_def": arr_def}
+            cls0 = {"option": name, "style": style, "cause": doc_cause, "array_def": arr_def, "required_only_direct": req_only[0], "required_only_container": req_only[1]}
             inp = {"doc": doc, "style": style, "option": name}
             if oa:
                 cls0["input"] = "openapi"
@@ -495,11 +498,16 @@ def run(ck: Check) -> None:
 
     campaign_model(ck, 25 if quick else 250, parts=("tr",), fork="c14-stage1")
     campaign_reuse(ck, 40 if quick else 400)
+    from . import c14_refkids
+
+    c14_refkids.campaign_bookkeeping(ck, 40 if quick else 400)
+    c14_refkids.campaign_family(ck, 35 if quick else 140, both_styles=not quick)
     campaign_focused(ck)
     campaign_random(ck, 70 if quick else 600)
     campaign_fracbound(ck, 16 if quick else 96)
     campaign_openapi_stage1(ck, 30 if quick else 300)
     campaign_openapi(ck, 10 if quick else 120)
+    ck.search_hooks.append(c14_refkids.search)
     ck.search_hooks.append(search)
     known_findings(ck)
 
